@@ -339,3 +339,31 @@ Section EmitPerm.
       destruct a; cbn [is_pending mem_var existsb negb]; apply perm_skip; exact IH.
   Qed.
 End EmitPerm.
+
+(* ---------- expression switch ---------- *)
+Lemma run_from_drop_no_default_fall cs :
+  forallb (fun c => match c with (None, _, true) => false | _ => true end) cs = true ->
+  drop_default_fallthrough cs = cs.
+Proof.
+  induction cs as [|[[o m] f] t IH]; cbn [forallb drop_default_fallthrough map]; auto.
+  intros H. apply andb_prop in H as [H1 H2]. fold (drop_default_fallthrough t). rewrite (IH H2).
+  destruct o; auto. destruct f; [discriminate|reflexivity].
+Qed.
+
+(* a default clause that is the LAST clause has nothing to fall into: there the dropped fallthrough is harmless *)
+Lemma run_from_last_fall_irrelevant pre o m f : run_from (pre ++ [(o, m, f)]) = run_from (pre ++ [(o, m, false)]).
+Proof.
+  induction pre as [|[[o' m'] f'] t IH]; cbn [app run_from].
+  - destruct f; reflexivity.
+  - rewrite IH. reflexivity.
+Qed.
+
+Lemma drop_default_fallthrough_refuted :
+  exists cs v, switch_exec (drop_default_fallthrough cs) v <> switch_exec cs v.
+Proof.
+  exists [(Some 0%Z, 1%N, false); (None, 2%N, true); (Some 1%Z, 3%N, false)], 5%Z. vm_compute. discriminate.
+Qed.
+
+(* without any fallthrough exactly one clause runs: the first matching case, else the default *)
+Lemma run_from_no_fall c t : snd c = false -> run_from (c :: t) = [snd (fst c)].
+Proof. destruct c as [[o m] f]. cbn. intros ->. reflexivity. Qed.
